@@ -724,11 +724,16 @@ class Bubble(monoidal.Bubble, Box):
         from sympy import Symbol
         tmp = Symbol("tmp")
         name = "$\\frac{{\\partial {}}}{{\\partial {}}}$"
-        return Spider(1, 2, dim=self.dom)\
-            >> self.inside.bubble(
-                func=lambda x: self.func(tmp).diff(tmp).subs(tmp, x),
-                drawing_name=name.format(self.drawing_name, var))\
-            @ self.inside.grad(var) >> Spider(2, 1, dim=self.cod)
+        def chain(grad):
+            return Spider(1, 2, dim=Dim.upgrade(self.dom))\
+                >> self.inside.bubble(
+                    func=lambda x: self.func(tmp).diff(tmp).subs(tmp, x),
+                    drawing_name=name.format(self.drawing_name, var))\
+                @ grad >> Spider(2, 1, dim=Dim.upgrade(self.cod))
+        grad = self.inside.grad(var)
+        if isinstance(grad, monoidal.Sum):
+            return self.sum(list(map(chain, grad.terms)), self.dom, self.cod)
+        return chain(grad)
 
 
 Diagram.bubble_factory = Bubble
